@@ -151,6 +151,13 @@ def make_cases(seed: int, tier: str, n_cases: int | None = None) -> list[dict]:
         if op == "write":
             sel = {"op": "write", "file": rs.randint(2, 6), "wn": 1}
         histories.append([{"sigma": engine.sample_sigma(rs, ["cwd", "out_spelling"]), "options": options, "faults": [{"sel": sel, "kind": kind}]}])
+        # a second run into the populated directory: clause 3 is judged on the event log of the second run
+        # (an append to a file that this run did not create keeps text of the earlier run)
+        rs = rng(cs, "rerun")
+        histories.append([{"sigma": engine.sample_sigma(rs, ["enum"]), "options": options},
+                          {"sigma": engine.sample_sigma(rs, ["cwd", "out_spelling", "enum"]), "options": options}])
+        if histories[-1][1]["sigma"].get("out_spelling") == "nested":
+            histories[-1][1]["sigma"]["out_spelling"] = "abs"
         cases.append({"index": idx, "case_seed": cs, "verif_seed": seed, "pkg": pkg, "options": options, "histories": histories})
     return cases
 
